@@ -166,6 +166,7 @@ type Contract struct {
 	Requires  []*Clause
 	Ensures   []*Clause
 	Maintains []string  // global invariants re-established on exit
+	PureCalls bool      // every call through a function value in this function is pure and deterministic
 	PureFns   []string  // function-typed parameters whose calls are pure and deterministic (T6)
 	Defines   *Expr     // result of this pure, deterministic function is denoted by this spec application
 	MayPanic  []*Clause // E may be nil (unconditional)
@@ -961,7 +962,7 @@ var clauseKeywords = map[string]bool{
 	"maypanic": true, "assigns": true, "loop": true, "inline": true, "trusted": true,
 	"pure": true, "type": true, "spec": true, "unfold": true, "axiom": true, "extern": true,
 	"iface": true, "lemma": true, "let": true, "assert": true, "assume": true, "level": true,
-	"package": true, "nobody": true, "call": true, "defines": true, "global": true, "maintains": true, "purefn": true,
+	"package": true, "nobody": true, "call": true, "defines": true, "global": true, "maintains": true, "purefn": true, "purecalls": true,
 }
 
 type rawClause struct {
@@ -1126,6 +1127,8 @@ func ParseSpecText(text, path string, goFile bool) (*SpecFile, error) {
 			}
 		case "maintains":
 			cur.Maintains = append(cur.Maintains, strings.Fields(rc.text)...)
+		case "purecalls":
+			cur.PureCalls = true
 		case "purefn":
 			cur.PureFns = append(cur.PureFns, strings.Fields(rc.text)...)
 		case "global":
